@@ -62,6 +62,16 @@ def norm_t(t):
     return t
 
 
+def norm_tc(t):
+    """like norm_t but keeps const inside template arguments (xcomplex<const int&,...> and xcomplex<int&,...> are different records)"""
+    t = re.sub(r'\b(class|struct|enum|typename) ', '', t)
+    t = re.sub(r'\bvolatile\b', '', t)
+    t = strip_cv(re.sub(r'\s+', ' ', t).strip())
+    t = re.sub(r'\s*([<>,*&])\s*', r'\1', t)
+    t = re.sub(r'(?<![\w.])(-?\d+)(?:[uU]?[lL]{0,2}|[lL]{1,2}[uU])(?![\w.])', r'\1', t)
+    return t
+
+
 def strip_cv(t):
     t = t.strip()
     changed = True
@@ -335,6 +345,7 @@ class Lower:
         self.used_names = {}
         self.recname = {}
         self.rec_by_t = {}
+        self.rec_by_tc = {}     # const-preserving keys (exact specialisation)
         self.structs = {}
         self.struct_order = []
         self.typedefs = {}
@@ -364,6 +375,7 @@ class Lower:
             if '<dependent' in ts or 'type-parameter' in ts:
                 continue
             for key in self.typestr_variants(rec, ts):
+                self.rec_by_tc.setdefault(norm_tc(key), rec)
                 self.rec_by_t.setdefault(norm_t(key), rec)
                 self.rec_by_t.setdefault(self.strip_default_args(norm_t(key)), rec)
         # `this` types are printed canonically: harvest them too
@@ -418,6 +430,9 @@ class Lower:
         return key
 
     def find_record(self, t):
+        r = self.rec_by_tc.get(norm_tc(t))
+        if r is not None:
+            return r
         key = norm_t(t)
         r = self.rec_by_t.get(key)
         if r is None:
@@ -677,8 +692,9 @@ class Lower:
         m = fn.get('mangledName') or fn['id']
         if m in self.names:
             return self.names[m]
-        if m in self.fn_alias:
-            nm = self.fn_alias[m]
+        forced = self.fn_alias(fn, self.tu.qualname(fn)) if callable(self.fn_alias) else self.fn_alias.get(m)
+        if forced:
+            nm = forced
         else:
             name = fn.get('name', 'f')
             if fn['kind'] == 'CXXConstructorDecl':
@@ -1897,7 +1913,12 @@ class Lower:
             raise Unsupported('construct unknown record ' + tstr)
         ctor = self.find_ctor(n)
         if ctor is None:
-            raise Unsupported('ctor not found %s for %s' % (n.get('ctorType', {}).get('qualType'), tstr))
+            want = n.get('ctorType', {}).get('qualType', '')
+            mm = re.fullmatch(r'void \((?:const )?(.+?) ?&&?\)(?: noexcept)?', want)
+            if mm and len(args) == 1 and norm_t(mm.group(1)) == norm_t(strip_cv(tstr)):
+                # implicitly declared copy / move constructor that clang did not materialise in this specialisation: memberwise copy
+                return '(*%s = %s)' % (target, self.rv_or_lv(args[0]))
+            raise Unsupported('ctor not found %s for %s' % (want, tstr))
         if ctor.get('isImplicit') or (ctor.get('explicitlyDefaulted') == 'default') or (self.tu.definition(ctor) is None and self.is_trivial_rec(rec)):
             if len(args) == 1 and self.is_copy_move_ctor(ctor, n):
                 return '(*%s = %s)' % (target, self.rv_or_lv(args[0]))
